@@ -1,3 +1,457 @@
-pub fn cmd_drive(_args: &[String]) {
-    unimplemented!()
+//! Direction B: a seeded generator of real-size datafiles (own writer, zlib images from the
+//! repository's `libtw2_zlib::compress_vec` or hand-made stored blocks), mutations (truncation,
+//! field fuzz, corrupt / oversized compressed blocks, garbage, random bytes) and the recording of
+//! what the real readers did, one NDJSON event per file for DatafileTrace.tla.
+use crate::{observe_file, observe_raw, run_guarded, zstored};
+use vh_common::canon;
+use rand::rngs::StdRng;
+use rand::{Rng, SeedableRng};
+use serde_json::{json, Value};
+use std::io::Write;
+use std::path::Path;
+
+pub struct Item {
+    pub t: u16,
+    pub id: u16,
+    pub w: Vec<i32>,
+}
+
+pub struct Df {
+    pub types: Vec<u16>,
+    pub items: Vec<Item>,
+    pub data: Vec<Vec<u8>>,
+}
+
+pub struct Written {
+    pub bytes: Vec<u8>,
+    /// (image, payload) of the blocks compressed with the repository's compressor
+    pub z: Vec<(Vec<u8>, Vec<u8>)>,
+    /// number of leading 32-bit words (everything before the data section)
+    pub int_words: usize,
+    /// byte offset of the data section
+    pub data_start: usize,
+    /// word index of the first data-size entry (version 4)
+    pub dsizes_word: usize,
+    pub nd: usize,
+}
+
+fn put(o: &mut Vec<u8>, x: i32) {
+    o.extend_from_slice(&x.to_le_bytes());
+}
+
+/// The writer of doc/datafile.md, written independently of the reader under test.
+pub fn write_df(df: &Df, version: i32, deflate: &[bool]) -> Written {
+    let mut z = Vec::new();
+    let imgs: Vec<Vec<u8>> = df
+        .data
+        .iter()
+        .enumerate()
+        .map(|(k, p)| {
+            if version == 3 {
+                p.clone()
+            } else if deflate[k] || p.len() >= 65536 {
+                let img = libtw2_zlib::compress_vec(p).expect("compress");
+                z.push((img.clone(), p.clone()));
+                img
+            } else {
+                zstored(p)
+            }
+        })
+        .collect();
+    let nit = df.types.len();
+    let ni = df.items.len();
+    let nd = df.data.len();
+    let size_items: usize = df.items.iter().map(|it| 8 + 4 * it.w.len()).sum();
+    let size_data: usize = imgs.iter().map(|d| d.len()).sum();
+    let total = 36 + 12 * nit + 4 * ni + 4 * nd + if version == 4 { 4 * nd } else { 0 } + size_items + size_data;
+    let mut o = Vec::with_capacity(total);
+    o.extend_from_slice(b"DATA");
+    put(&mut o, version);
+    put(&mut o, (total - 16) as i32);
+    put(&mut o, (total - 16 - size_data) as i32);
+    put(&mut o, nit as i32);
+    put(&mut o, ni as i32);
+    put(&mut o, nd as i32);
+    put(&mut o, size_items as i32);
+    put(&mut o, size_data as i32);
+    for &t in &df.types {
+        let start = df.items.iter().position(|it| it.t == t);
+        let num = df.items.iter().filter(|it| it.t == t).count();
+        // a type without items starts where the next larger type starts
+        let start = start.unwrap_or_else(|| df.items.iter().filter(|it| it.t < t).count());
+        put(&mut o, t as i32);
+        put(&mut o, start as i32);
+        put(&mut o, num as i32);
+    }
+    let mut off = 0usize;
+    for it in &df.items {
+        put(&mut o, off as i32);
+        off += 8 + 4 * it.w.len();
+    }
+    let mut off = 0usize;
+    for d in &imgs {
+        put(&mut o, off as i32);
+        off += d.len();
+    }
+    let dsizes_word = o.len() / 4;
+    if version == 4 {
+        for p in &df.data {
+            put(&mut o, p.len() as i32);
+        }
+    }
+    for it in &df.items {
+        put(&mut o, (((it.t as u32) << 16) | it.id as u32) as i32);
+        put(&mut o, (4 * it.w.len()) as i32);
+        for &x in &it.w {
+            put(&mut o, x);
+        }
+    }
+    let data_start = o.len();
+    for d in &imgs {
+        o.extend_from_slice(d);
+    }
+    assert_eq!(o.len(), total);
+    Written { bytes: o, z, int_words: data_start / 4, data_start, dsizes_word, nd }
+}
+
+fn boundary(rng: &mut StdRng, orig: i32) -> i32 {
+    match rng.gen_range(0..14) {
+        0 => 0,
+        1 => 1,
+        2 => -1,
+        3 => i32::MIN,
+        4 => i32::MAX,
+        5 => i32::MIN + 1,
+        6 => orig.wrapping_add(1),
+        7 => orig.wrapping_sub(1),
+        8 => orig.wrapping_add(4),
+        9 => orig.wrapping_sub(4),
+        10 => orig.wrapping_add(2),
+        11 => 65536,
+        12 => orig.wrapping_mul(2),
+        _ => rng.gen(),
+    }
+}
+
+fn gen_df(rng: &mut StdRng, big: bool) -> Df {
+    let nit = match rng.gen_range(0..10) {
+        0 => 0,
+        1..=3 => 1,
+        4..=6 => rng.gen_range(2..4),
+        _ => rng.gen_range(2..9),
+    };
+    let mut tset = std::collections::BTreeSet::new();
+    while tset.len() < nit {
+        tset.insert(match rng.gen_range(0..6) {
+            0 => 0u16,
+            1 => 0xffff,
+            2 => rng.gen_range(0..8),
+            3 => 0x8000,
+            _ => rng.gen(),
+        });
+    }
+    let types: Vec<u16> = tset.into_iter().collect();
+    let mut items = Vec::new();
+    for &t in &types {
+        let n = match rng.gen_range(0..8) {
+            0 => 0,
+            1..=4 => rng.gen_range(1..4),
+            _ => rng.gen_range(1..if big { 60 } else { 12 }),
+        };
+        let common_len = rng.gen_range(0..if big { 300 } else { 24 });
+        let mut ids = std::collections::BTreeSet::new();
+        while ids.len() < n {
+            ids.insert(if rng.gen_bool(0.7) { ids.len() as u16 } else { rng.gen() });
+        }
+        for id in ids {
+            let len = if rng.gen_bool(0.8) { common_len } else { rng.gen_range(0..30) };
+            let w = (0..len)
+                .map(|_| match rng.gen_range(0..6) {
+                    0 => 0,
+                    1 => -1,
+                    2 => i32::MIN,
+                    3 => i32::MAX,
+                    _ => rng.gen(),
+                })
+                .collect();
+            items.push(Item { t, id, w });
+        }
+    }
+    let nd = match rng.gen_range(0..8) {
+        0 => 0,
+        1..=3 => rng.gen_range(1..3),
+        _ => rng.gen_range(1..7),
+    };
+    let data = (0..nd)
+        .map(|_| {
+            let len = match rng.gen_range(0..12) {
+                0 => 0,
+                1 => 1,
+                2..=6 => rng.gen_range(2..64),
+                7..=9 => rng.gen_range(64..600),
+                10 => rng.gen_range(600..if big { 6000 } else { 1500 }),
+                _ => {
+                    if big {
+                        rng.gen_range(65000..70000)
+                    } else {
+                        rng.gen_range(600..1500)
+                    }
+                }
+            };
+            let compressible = rng.gen_bool(0.5);
+            let seedb: u8 = rng.gen();
+            (0..len)
+                .map(|j| if compressible { seedb.wrapping_add((j / 17) as u8) } else { rng.gen() })
+                .collect()
+        })
+        .collect();
+    Df { types, items, data }
+}
+
+fn stored_json(df: &Df) -> Value {
+    json!({
+        "types": df.types,
+        "items": df.items.iter().map(|it| json!({"t": it.t, "id": it.id, "w": it.w})).collect::<Vec<_>>(),
+        "data": df.data,
+    })
+}
+
+fn get_word(b: &[u8], k: usize) -> i32 {
+    i32::from_le_bytes([b[4 * k], b[4 * k + 1], b[4 * k + 2], b[4 * k + 3]])
+}
+fn set_word(b: &mut [u8], k: usize, x: i32) {
+    b[4 * k..4 * k + 4].copy_from_slice(&x.to_le_bytes());
+}
+
+struct Out<'a> {
+    f: std::io::BufWriter<std::fs::File>,
+    path: &'a Path,
+    n: u64,
+    seen: std::collections::HashSet<u64>,
+}
+
+/// Runs both readers on `bytes` and builds the trace event.
+pub fn make_event(
+    path: &Path,
+    n: u64,
+    mutation: &str,
+    wf: bool,
+    stored: Value,
+    z: Value,
+    bytes: &[u8],
+    probes: &[(u16, u16)],
+) -> Value {
+    std::fs::write(path, bytes).unwrap();
+    vh_common::set_case(&json!({"mut": mutation, "bytes": bytes}).to_string());
+    let pb = path.to_path_buf();
+    let o1 = run_guarded(|| observe_file(&pb, probes));
+    let o2 = run_guarded(|| observe_raw(bytes, probes));
+    let nop = json!({"stage": "", "msg": "", "loc": ""});
+    let strip = |o: &Value, panicked: bool| -> Value {
+        let mut v = if panicked { crate::err_verdict("panic".to_string()) } else { o.clone() };
+        if let Some(m) = v.as_object_mut() {
+            m.remove("types2");
+            m.remove("items2");
+            m.remove("dump_ok");
+            m.remove("recheck_ok");
+            // data_iter() against read_data(k): projected as one boolean
+            let same = match m.remove("data_iter") {
+                Some(di) => m.get("data").map(|d| canon(d) == canon(&di)).unwrap_or(false),
+                None => true,
+            };
+            m.insert("data_iter_same".to_string(), Value::Bool(same));
+        }
+        v
+    };
+    let f_obs = strip(&o1.act, o1.panic.is_some());
+    let r_obs = strip(&o2.act, o2.panic.is_some());
+    let raw_same = canon(&f_obs) == canon(&r_obs);
+    json!({
+        "n": n,
+        "mut": mutation,
+        "wf": wf,
+        "stored": stored,
+        "probes": probes.iter().map(|&(t, id)| json!([t, id])).collect::<Vec<_>>(),
+        "bytes": bytes,
+        "z": z,
+        "file": f_obs,
+        "raw_same": raw_same,
+        "raw": if raw_same { json!({"open": "same"}) } else { r_obs },
+        "file_panic": o1.panic.clone().unwrap_or_else(|| nop.clone()),
+        "raw_panic": o2.panic.clone().unwrap_or_else(|| nop.clone()),
+        // the redundant accessors agree with the primary ones (projection consistency);
+        // an accepted raw::Reader passes its own check() again
+        "redundant_ok": (o1.panic.is_some() || o1.act["open"] != "ok"
+            || (o1.act["types"] == o1.act["types2"] && o1.act["items"] == o1.act["items2"]))
+            && o2.act["recheck_ok"] != Value::Bool(false),
+    })
+}
+
+impl<'a> Out<'a> {
+    fn event(&mut self, mutation: String, wf: bool, df: Option<&Df>, w: &Written, bytes: &[u8], probes: &[(u16, u16)]) {
+        let stored = df.map(stored_json).unwrap_or_else(|| json!({"types": [], "items": [], "data": []}));
+        let z = Value::Array(w.z.iter().map(|(img, p)| json!({"img": img, "p": p})).collect());
+        let ev = make_event(self.path, self.n + 1, &mutation, wf, stored, z, bytes, probes);
+        self.seen.insert(crate::fnv(bytes));
+        writeln!(self.f, "{}", ev).unwrap();
+        self.n += 1;
+    }
+}
+
+fn probes_for(rng: &mut StdRng, df: &Df) -> Vec<(u16, u16)> {
+    let mut p = Vec::new();
+    for _ in 0..3 {
+        if !df.items.is_empty() {
+            let it = &df.items[rng.gen_range(0..df.items.len())];
+            p.push((it.t, it.id));
+        }
+    }
+    p.push((rng.gen_range(0..10), rng.gen_range(0..4)));
+    p.push((0xffff, 0xffff));
+    p
+}
+
+/// args: <workdir> <seed> <n> <profile: quick|thorough> <out.ndjson>
+pub fn cmd_drive(args: &[String]) {
+    let workdir = &args[0];
+    let seed: u64 = args[1].parse().unwrap();
+    let n: u64 = args[2].parse().unwrap();
+    let big = args[3] == "thorough";
+    std::fs::create_dir_all(workdir).unwrap();
+    let path = Path::new(workdir).join(format!("drive-{}.map", std::process::id()));
+    let mut out = Out {
+        f: std::io::BufWriter::new(std::fs::File::create(&args[4]).unwrap()),
+        path: &path,
+        n: 0,
+        seen: Default::default(),
+    };
+    let mut rng = StdRng::seed_from_u64(seed);
+
+    // (1) truncation at every position of a few small files, both versions
+    let n_exh = if big { 6 } else { 2 };
+    for k in 0..n_exh {
+        let df = loop {
+            let d = gen_df(&mut rng, false);
+            let sz: usize = d.items.iter().map(|i| 8 + 4 * i.w.len()).sum::<usize>()
+                + d.data.iter().map(|x| x.len()).sum::<usize>();
+            if sz < 160 && !d.items.is_empty() && !d.data.is_empty() {
+                break d;
+            }
+        };
+        let version = if k % 2 == 0 { 3 } else { 4 };
+        let deflate: Vec<bool> = df.data.iter().map(|_| rng.gen_bool(0.5)).collect();
+        let w = write_df(&df, version, &deflate);
+        let probes = probes_for(&mut rng, &df);
+        out.event("none".into(), true, Some(&df), &w, &w.bytes, &probes);
+        for p in 0..w.bytes.len() {
+            out.event(format!("trunc:{}", p), false, None, &w, &w.bytes[..p], &probes);
+        }
+    }
+
+    // (2) random files x random mutations
+    let n_random_start = out.n;
+    while out.n < n_random_start + n {
+        let is_big = big && rng.gen_range(0..40) == 0;
+        let df = gen_df(&mut rng, is_big);
+        let version = if rng.gen_bool(0.4) { 3 } else { 4 };
+        let deflate: Vec<bool> = df.data.iter().map(|_| rng.gen_bool(0.6)).collect();
+        let w = write_df(&df, version, &deflate);
+        let probes = probes_for(&mut rng, &df);
+        let mut b = w.bytes.clone();
+        let m = rng.gen_range(0..20);
+        match m {
+            0..=6 => out.event("none".into(), true, Some(&df), &w, &b, &probes),
+            7 | 8 => {
+                let p = rng.gen_range(0..b.len());
+                out.event(format!("trunc:{}", p), false, None, &w, &b[..p], &probes);
+            }
+            9..=11 => {
+                // one word of the integer area (header, tables, item headers and data words)
+                let k = rng.gen_range(1..w.int_words);
+                let x = boundary(&mut rng, get_word(&b, k));
+                set_word(&mut b, k, x);
+                out.event(format!("fuzz:w{}={}", k, x), false, None, &w, &b, &probes);
+            }
+            12 | 13 => {
+                // corrupt a byte of the data section (compressed blocks in version 4)
+                if b.len() > w.data_start {
+                    let p = rng.gen_range(w.data_start..b.len());
+                    b[p] ^= 1 << rng.gen_range(0..8);
+                    out.event(format!("dflip:{}", p), false, None, &w, &b, &probes);
+                }
+            }
+            14 => {
+                // oversized / undersized declared uncompressed size
+                if version == 4 && w.nd > 0 {
+                    let k = w.dsizes_word + rng.gen_range(0..w.nd);
+                    let orig = get_word(&b, k);
+                    let x = match rng.gen_range(0..7) {
+                        0 => 0,
+                        1 => orig + 1,
+                        2 => (orig - 1).max(0),
+                        3 => orig * 2 + 7,
+                        4 => 65536,
+                        5 => i32::MAX,
+                        _ => 100_000_000,
+                    };
+                    set_word(&mut b, k, x);
+                    out.event(format!("dsize:w{}={}", k, x), false, None, &w, &b, &probes);
+                }
+            }
+            15 => {
+                let extra = rng.gen_range(1..40);
+                for _ in 0..extra {
+                    b.push(rng.gen());
+                }
+                out.event(format!("append:{}", extra), false, None, &w, &b, &probes);
+            }
+            16 => {
+                // historic "crude" version 4 size field (data sizes not counted), or reversed magic
+                if version == 4 && w.nd > 0 && rng.gen_bool(0.7) {
+                    let s = get_word(&b, 2) - 4 * w.nd as i32;
+                    set_word(&mut b, 2, s);
+                    if rng.gen_bool(0.5) {
+                        let sl = get_word(&b, 3) - 4 * w.nd as i32;
+                        set_word(&mut b, 3, sl);
+                    }
+                    out.event("crude".into(), false, None, &w, &b, &probes);
+                } else {
+                    b[..4].copy_from_slice(b"ATAD");
+                    out.event("atad".into(), false, None, &w, &b, &probes);
+                }
+            }
+            17 => {
+                // several words fuzzed at once
+                let cnt = rng.gen_range(2..5);
+                for _ in 0..cnt {
+                    let k = rng.gen_range(1..w.int_words);
+                    let x = boundary(&mut rng, get_word(&b, k));
+                    set_word(&mut b, k, x);
+                }
+                out.event(format!("fuzz{}", cnt), false, None, &w, &b, &probes);
+            }
+            _ => {
+                // random bytes, optionally behind a plausible header
+                let len = rng.gen_range(0..200);
+                let mut r: Vec<u8> = (0..len).map(|_| rng.gen()).collect();
+                let style = rng.gen_range(0..3);
+                if style >= 1 && r.len() >= 8 {
+                    r[..4].copy_from_slice(b"DATA");
+                    r[4..8].copy_from_slice(&(if rng.gen_bool(0.5) { 3i32 } else { 4 }).to_le_bytes());
+                }
+                if style == 2 && r.len() >= 36 {
+                    // small non-negative header fields so that the size checks are reached
+                    for k in 2..9 {
+                        let x = rng.gen_range(0..6) * if k == 7 { 4 } else { 1 };
+                        set_word(&mut r, k, x);
+                    }
+                }
+                let w0 = Written { bytes: Vec::new(), z: Vec::new(), int_words: 0, data_start: 0, dsizes_word: 0, nd: 0 };
+                out.event(format!("random:{}:{}", style, len), false, None, &w0, &r, &probes);
+            }
+        }
+    }
+    out.f.flush().unwrap();
+    let _ = std::fs::remove_file(&path);
+    println!("{}", json!({"kind": "summary", "events": out.n, "distinct_files": out.seen.len()}));
 }
